@@ -40,32 +40,35 @@ end Nt
 namespace NtH
 open Nt
 
+section generic
+variable {κ ν : Type} [DecidableEq κ]
+
 /-- notifier `i` holds a reference to cell `a` -/
-def Owns (H : HWorld) (i : Nat) (a : Addr) : Prop := ∃ n, (n, a) ∈ H.pm i
+def Owns (H : HWorld κ ν) (i : Nat) (a : Addr) : Prop := ∃ n, (n, a) ∈ H.pm i
 
 /-- **separation**: every referenced cell is allocated, and no cell is referenced by two notifiers -/
-structure Sep (H : HWorld) : Prop where
+structure Sep (H : HWorld κ ν) : Prop where
   bound : ∀ i a, Owns H i a → a < H.next
   disj : ∀ i j a, Owns H i a → Owns H j a → i = j
   /-- within one notifier no two names reference the same cell -/
   nodupA : ∀ i, ((H.pm i).map (·.2)).Nodup
 
-theorem sep_init : Sep HWorld.init :=
+theorem sep_init (z : ν) : Sep (HWorld.init z : HWorld κ ν) :=
   ⟨fun i a h => (by obtain ⟨n, hn⟩ := h; cases hn), fun i j a h _ => (by obtain ⟨n, hn⟩ := h; cases hn), fun _ => List.nodup_nil⟩
 
 /-- what a step working for notifier `i` may do: allocate, change `i`'s references (only dropping old ones or adding
     fresh cells), write cells `i` owns or fresh ones — and keep the separation -/
-structure Frame (H H' : HWorld) (i : Nat) : Prop where
+structure Frame (H H' : HWorld κ ν) (i : Nat) : Prop where
   mono : H.next ≤ H'.next
   others : ∀ j, j ≠ i → H'.pm j = H.pm j
   cells : ∀ a, a < H.next → ¬ Owns H i a → H'.heap a = H.heap a
   fresh : ∀ a, Owns H' i a → Owns H i a ∨ H.next ≤ a
   sep : Sep H'
 
-theorem frame_refl (H : HWorld) (i : Nat) (hs : Sep H) : Frame H H i :=
+theorem frame_refl (H : HWorld κ ν) (i : Nat) (hs : Sep H) : Frame H H i :=
   ⟨Nat.le_refl _, fun _ _ => rfl, fun _ _ _ => rfl, fun _ h => Or.inl h, hs⟩
 
-theorem frame_trans {H H' H'' : HWorld} {i : Nat} (h1 : Frame H H' i) (h2 : Frame H' H'' i) : Frame H H'' i := by
+theorem frame_trans {H H' H'' : HWorld κ ν} {i : Nat} (h1 : Frame H H' i) (h2 : Frame H' H'' i) : Frame H H'' i := by
   refine ⟨Nat.le_trans h1.mono h2.mono, fun j hj => (h2.others j hj).trans (h1.others j hj), ?_, ?_, h2.sep⟩
   · intro a ha hno
     rw [h2.cells a (Nat.lt_of_lt_of_le ha h1.mono) ?_, h1.cells a ha hno]
@@ -98,15 +101,15 @@ theorem mem_assocSet {α β : Type} [DecidableEq α] (l : List (α × β)) (k : 
 theorem mem_assocDel {α β : Type} [DecidableEq α] (l : List (α × β)) (k : α) (x : α × β) (h : x ∈ assocDel l k) : x ∈ l :=
   (List.mem_filter.mp h).1
 
-theorem owns_upd_self (H : HWorld) (i : Nat) (v : List (Name × Addr)) (h' : Addr → List (Nat × Int)) (nx : Addr) (a : Addr) :
+theorem owns_upd_self (H : HWorld κ ν) (i : Nat) (v : List (κ × Addr)) (h' : Addr → ν) (nx : Addr) (a : Addr) :
     Owns { heap := h', next := nx, pm := upd H.pm i v } i a ↔ ∃ n, (n, a) ∈ v := by
   simp [Owns, upd]
 
-theorem owns_upd_other (H : HWorld) (i j : Nat) (hj : j ≠ i) (v : List (Name × Addr)) (h' : Addr → List (Nat × Int))
+theorem owns_upd_other (H : HWorld κ ν) (i j : Nat) (hj : j ≠ i) (v : List (κ × Addr)) (h' : Addr → ν)
     (nx : Addr) (a : Addr) : Owns { heap := h', next := nx, pm := upd H.pm i v } j a ↔ Owns H j a := by
   simp [Owns, upd, hj]
 
-theorem addrs_assocSet (l : List (Name × Addr)) (n : Name) (a : Addr) :
+theorem addrs_assocSet (l : List (κ × Addr)) (n : κ) (a : Addr) :
     ∀ x ∈ (assocSet l n a).map (·.2), x ∈ l.map (·.2) ∨ x = a := by
   intro x hx
   obtain ⟨e, he, rfl⟩ := List.mem_map.mp hx
@@ -114,7 +117,7 @@ theorem addrs_assocSet (l : List (Name × Addr)) (n : Name) (a : Addr) :
   · exact Or.inl (List.mem_map.mpr ⟨e, h, rfl⟩)
   · rw [h]; exact Or.inr rfl
 
-theorem addrs_assocSet_nodup (l : List (Name × Addr)) (n : Name) (a : Addr) (hn : (l.map (·.2)).Nodup)
+theorem addrs_assocSet_nodup (l : List (κ × Addr)) (n : κ) (a : Addr) (hn : (l.map (·.2)).Nodup)
     (ha : a ∉ l.map (·.2)) : ((assocSet l n a).map (·.2)).Nodup := by
   induction l with
   | nil => simp [assocSet]
@@ -133,7 +136,7 @@ theorem addrs_assocSet_nodup (l : List (Name × Addr)) (n : Name) (a : Addr) (hn
       · exact ha.1 h.symm
 
 /-- writing a cell that `i` owns (no change of references) -/
-theorem frame_write (H : HWorld) (i : Nat) (hs : Sep H) (a : Addr) (ho : Owns H i a) (v : List (Nat × Int)) :
+theorem frame_write (H : HWorld κ ν) (i : Nat) (hs : Sep H) (a : Addr) (ho : Owns H i a) (v : ν) :
     Frame H { H with heap := hset H.heap a v } i := by
   refine ⟨Nat.le_refl _, fun _ _ => rfl, ?_, fun _ h => Or.inl h, ⟨hs.bound, hs.disj, hs.nodupA⟩⟩
   intro b _ hno
@@ -141,7 +144,7 @@ theorem frame_write (H : HWorld) (i : Nat) (hs : Sep H) (a : Addr) (ho : Owns H 
   simp [hset, this]
 
 /-- allocating a fresh cell with content `v` and letting `i`'s name `n` point to it -/
-theorem frame_alloc (H : HWorld) (i : Nat) (hs : Sep H) (n : Name) (v : List (Nat × Int)) :
+theorem frame_alloc (H : HWorld κ ν) (i : Nat) (hs : Sep H) (n : κ) (v : ν) :
     Frame H { heap := hset H.heap H.next v, next := H.next + 1, pm := upd H.pm i (assocSet (H.pm i) n H.next) } i := by
   refine ⟨Nat.le_succ _, fun j hj => by simp [upd, hj], ?_, ?_, ?_, ?_, ?_⟩
   · intro b hb _
@@ -187,7 +190,7 @@ theorem frame_alloc (H : HWorld) (i : Nat) (hs : Sep H) (n : Name) (v : List (Na
     · simp only [upd, if_neg hk]; exact hs.nodupA k
 
 /-- dropping references of `i` (no allocation, no write) keeps the frame -/
-theorem frame_drop (H : HWorld) (i : Nat) (hs : Sep H) (h' : Addr → List (Nat × Int)) (v : List (Name × Addr))
+theorem frame_drop (H : HWorld κ ν) (i : Nat) (hs : Sep H) (h' : Addr → ν) (v : List (κ × Addr))
     (hsub : ∀ x ∈ v, x ∈ H.pm i) (hv : (v.map (·.2)).Nodup) (hcells : ∀ a, a < H.next → ¬ Owns H i a → h' a = H.heap a) :
     Frame H { heap := h', next := H.next, pm := upd H.pm i v } i := by
   have sub : ∀ k a, Owns { heap := h', next := H.next, pm := upd H.pm i v } k a → Owns H k a := by
@@ -204,14 +207,41 @@ theorem frame_drop (H : HWorld) (i : Nat) (hs : Sep H) (h' : Addr → List (Nat 
         · subst hk; simp only [upd, if_true]; exact hv
         · simp only [upd, if_neg hk]; exact hs.nodupA k⟩⟩
 
-theorem frame_hRegOne (H : HWorld) (hs : Sep H) (i : Nat) (n : Name) (t : Nat) (p : Int) :
-    Frame H (hRegOne H i n t p) i := by
-  unfold hRegOne
-  cases hg : assocGet (H.pm i) n with
-  | some a => exact frame_write H i hs a ⟨n, mem_of_assocGet _ _ _ hg⟩ _
-  | none => exact frame_alloc H i hs n _
+theorem frame_hUpd (H : HWorld κ ν) (hs : Sep H) (i : Nat) (k : κ) (f : ν → ν) (z : ν) : Frame H (hUpd H i k f z) i := by
+  unfold hUpd
+  cases hg : assocGet (H.pm i) k with
+  | some a => exact frame_write H i hs a ⟨k, mem_of_assocGet _ _ _ hg⟩ _
+  | none => exact frame_alloc H i hs k _
 
-theorem frame_hUnregOne (H : HWorld) (hs : Sep H) (i t : Nat) (n : Name) : Frame H (hUnregOne i t H n) i := by
+theorem frame_hMergeG (comb : ν → ν → ν) (H : HWorld κ ν) (hs : Sep H) (i : Nat) (e : κ × Addr) :
+    Frame H (hMergeG comb true i H e) i := by
+  unfold hMergeG
+  cases hg : assocGet (H.pm i) e.1 with
+  | some a => exact frame_write H i hs a ⟨e.1, mem_of_assocGet _ _ _ hg⟩ _
+  | none => simp only [if_true]; exact frame_alloc H i hs e.1 _
+
+theorem frame_hDel (H : HWorld κ ν) (hs : Sep H) (i : Nat) (k : κ) : Frame H (hDel H i k) i :=
+  frame_drop H i hs _ _ (fun x hx => mem_assocDel _ _ _ hx)
+    ((hs.nodupA i).sublist (List.Sublist.map _ List.filter_sublist)) (fun _ _ _ => rfl)
+
+theorem frame_reset (H : HWorld κ ν) (hs : Sep H) (i : Nat) : Frame H { H with pm := upd H.pm i [] } i :=
+  frame_drop H i hs _ [] (fun x hx => by cases hx) List.nodup_nil (fun _ _ _ => rfl)
+
+/-- under separation a step leaves every OTHER notifier's dereferenced map alone -/
+theorem deref_of_frame (H H' : HWorld κ ν) (i j : Nat) (hs : Sep H) (hf : Frame H H' i) (hj : j ≠ i) : deref H' j = deref H j := by
+  unfold deref
+  rw [hf.others j hj]
+  apply List.map_congr_left
+  intro e he
+  have ho : Owns H j e.2 := ⟨e.1, he⟩
+  rw [hf.cells e.2 (hs.bound j _ ho) (fun hi => hj (hs.disj j i _ ho hi))]
+
+end generic
+
+theorem frame_hRegOne (H : PW) (hs : Sep H) (i : Nat) (n : Name) (t : Nat) (p : Int) :
+    Frame H (hRegOne H i n t p) i := frame_hUpd H hs i n _ _
+
+theorem frame_hUnregOne (H : PW) (hs : Sep H) (i t : Nat) (n : Name) : Frame H (hUnregOne i t H n) i := by
   unfold hUnregOne
   cases hg : assocGet (H.pm i) n with
   | none => exact frame_refl H i hs
@@ -226,24 +256,25 @@ theorem frame_hUnregOne (H : HWorld) (hs : Sep H) (i t : Nat) (n : Name) : Frame
       simp [hset, this]
     · exact frame_write H i hs a ho _
 
-theorem frame_hMergeStep (H : HWorld) (hs : Sep H) (i : Nat) (e : Name × Addr) : Frame H (hMergeStep true i H e) i := by
-  unfold hMergeStep
-  cases hg : assocGet (H.pm i) e.1 with
-  | some a => exact frame_write H i hs a ⟨e.1, mem_of_assocGet _ _ _ hg⟩ _
-  | none => simp only [if_true]; exact frame_alloc H i hs e.1 _
+theorem frame_hMergeStep (H : PW) (hs : Sep H) (i : Nat) (e : Name × Addr) : Frame H (hMergeStep true i H e) i :=
+  frame_hMergeG overlay H hs i e
 
-theorem frame_foldl {α : Type} (f : HWorld → α → HWorld) (i : Nat) (hf : ∀ H x, Sep H → Frame H (f H x) i) (l : List α)
-    (H : HWorld) (hs : Sep H) : Frame H (l.foldl f H) i := by
+section generic2
+variable {κ ν : Type} [DecidableEq κ]
+theorem frame_foldl {α : Type} (f : HWorld κ ν → α → HWorld κ ν) (i : Nat) (hf : ∀ H x, Sep H → Frame H (f H x) i) (l : List α)
+    (H : HWorld κ ν) (hs : Sep H) : Frame H (l.foldl f H) i := by
   induction l generalizing H with
   | nil => exact frame_refl H i hs
   | cons x l ih => exact frame_trans (hf H x hs) (ih _ (hf H x hs).sep)
+
+end generic2
 
 /-- is the operation one the code performs (every merge copies the inner maps) -/
 def HOp.deep : HOp → Bool
   | .merge d _ _ => d
   | _ => true
 
-theorem frame_hstep (H : HWorld) (hs : Sep H) (op : HOp) (hd : op.deep = true) : Frame H (hstep H op) op.target := by
+theorem frame_hstep (H : PW) (hs : Sep H) (op : HOp) (hd : op.deep = true) : Frame H (hstep H op) op.target := by
   cases op with
   | reg i n t p => exact frame_hRegOne H hs i n t p
   | unreg i t ns => exact frame_foldl _ i (fun H n hs => frame_hUnregOne H hs i t n) ns H hs
@@ -254,18 +285,9 @@ theorem frame_hstep (H : HWorld) (hs : Sep H) (op : HOp) (hd : op.deep = true) :
     split
     · exact frame_refl H i hs
     · exact frame_foldl _ i (fun H e hs => frame_hMergeStep H hs i e) _ H hs
-  | reset i => exact frame_drop H i hs _ [] (fun x hx => by cases hx) List.nodup_nil (fun _ _ _ => rfl)
+  | reset i => exact frame_reset H hs i
 
-/-- under separation a step leaves every OTHER notifier's dereferenced production map alone -/
-theorem deref_of_frame (H H' : HWorld) (i j : Nat) (hs : Sep H) (hf : Frame H H' i) (hj : j ≠ i) : deref H' j = deref H j := by
-  unfold deref
-  rw [hf.others j hj]
-  apply List.map_congr_left
-  intro e he
-  have ho : Owns H j e.2 := ⟨e.1, he⟩
-  rw [hf.cells e.2 (hs.bound j _ ho) (fun hi => hj (hs.disj j i _ ho hi))]
-
-theorem sep_hrunFrom (ops : List HOp) (H : HWorld) (hs : Sep H) (hd : ∀ op ∈ ops, op.deep = true) : Sep (ops.foldl hstep H) := by
+theorem sep_hrunFrom (ops : List HOp) (H : PW) (hs : Sep H) (hd : ∀ op ∈ ops, op.deep = true) : Sep (ops.foldl hstep H) := by
   induction ops generalizing H with
   | nil => exact hs
   | cons op ops ih =>
